@@ -1058,6 +1058,7 @@ func main() {
 	}
 	if *replay == "" {
 		runReelections(R, *seed, 6)
+		runLifecycles(R, *seed, 16)
 		runParallelProbe(R, *seed)
 	}
 	if err := cf.Flush(); err != nil {
